@@ -425,7 +425,7 @@ K_REFRESH = dict(name="K-core::screen", package="rustzx-core", features="full",
                      "ram_page_data replaced by 4-byte stand-in pages and ZXScreen::update by a call recorder: the harness proves the call structure of refresh (every byte of banks 0 / 5 and 7 is forwarded with its bank and offset) for all page contents and paging states; the loop is parametric in the slice length; update's effect is its Verus contract"])
 
 K_VTXLOAD = dict(name="K-vtx::load", package="vtx", harnesses=["vtx_load_header"], jobs=1, timeout=3000,
-                 bounded={"vtx_load_header": "byte strings <= 48 bytes, declared frame size 0 / rejected (LH5 payload excluded)"},
+                 bounded={"vtx_load_header": "every 16-byte header x 7 enumerated strings blocks + 5 header truncations; declared frame size 0 / rejected (LH5 payload excluded)"},
                  functions={"*": ["Vtx::load (header, strings block)"]},
                  assumptions=["delharc LH5 decoder not verified"])
 
@@ -453,7 +453,7 @@ PROPS = {
     ),
     "C15": dict(
         level="proof",
-        claim="Totality obligations: Verus proves termination and absence of panics/overflow/out-of-range access (its default obligations) for the host-trait loops read_exact/write_all under ANY host read/write behaviour, the TAP block reader and pulse state machine for all images, frame_registers, the VTX transposition, BlocksCount, ZXColor::from_bits / set_regs preconditions; Kani proves that sna::load returns Ok/Err for every header, reported size class, model combination and an injected asset failure at any call, and (BOUNDED) the same for one-block SZX files and <= 48-byte VTX headers; every K-z80 group additionally proves Z80::emulate free of panics for every CPU state and bus answer (thorough tier).",
+        claim="Totality obligations: Verus proves termination and absence of panics/overflow/out-of-range access (its default obligations) for the host-trait loops read_exact/write_all under ANY host read/write behaviour, the TAP block reader and pulse state machine for all images, frame_registers, the VTX transposition, BlocksCount, ZXColor::from_bits / set_regs preconditions; Kani proves that sna::load returns Ok/Err for every header, reported size class, model combination and an injected asset failure at any call, and (BOUNDED) the same for one-block SZX files and VTX headers with enumerated strings blocks; every K-z80 group additionally proves Z80::emulate free of panics for every CPU state and bus answer (thorough tier).",
         note="BOUNDED parts are reported under bounded_stand_ins. Third-party decoders (miniz_oxide, flate2/GzipAsset, delharc) are out of reach and assumed. Memory proportionality is the explicit size checks now in the loaders (SZX block size <= rest of file, VTX frame size cap), checked by the harness assertions. Twelve loader defects repaired (see known_findings.json fixed entries).",
         verus=["hostio", "tape", "vtx", "screen", "scr"],
         kani=[K_LOADERS, K_LOADERS_SZX, K_VTXLOAD, k_z80("K-z80::total", ["plain_all", "ed_all", "cbx_all"], tier="thorough")],
